@@ -352,6 +352,11 @@ def r3_no_storage(R) -> None:
                         if own_ns and ident:
                             raise Unsupported(f'{q}: `{text(x)[:60]}` keeps a result on the class, read back through vars(cls) and re-checked by identity: a validated '
                                               f'per-class cache, whose completeness this rule does not decide')
+                        from rules import memo as _memo
+                        lab_ = _memo.owned(R.repo, x)
+                        if lab_ is not None:
+                            R.ok(q, f'`{text(x)[:50]}` fills the cache `{lab_}`: whether what it keeps can go stale is decided by rule C18.M')
+                            continue
                         R.violation(q, 'alias-class-state:' + text(t)[:40], f'`{text(x)[:60]}` keeps state on the class: what one class (or instance) computed is seen by '
                                     f'subclasses and other instances (a subclass with its own ALIASES would inherit the parent\'s resolved map)', where=f'{fi.module.relpath}:{x.lineno}')
         # a method that changes one of its arguments in place, called with an object obtained from the base class or from
@@ -382,7 +387,7 @@ def r3_no_storage(R) -> None:
         R.violation(A, 'add-variable-alias-unaware',
                     'AliasMixin does not override add_variable(): m.add_variable(<alias>, ...) is not the same operation on the underlying variable (which raises '
                     'DuplicateNameError) - it appends the alias to index/names and stores a separate array under it, which `m.<alias>` never reaches but `size`, `values` and '
-                    'to_dataframe() include', where='fsic/extensions/common.py')
+                    'to_dataframe() include', where='fsic/extensions/common.py', mismatch=True)
     else:
         fa = Fn(R, aq)
         calls_ = [x for x in ast.walk(fa.fi.node) if is_super_call(x, 'add_variable')]
